@@ -147,10 +147,12 @@ def gen_specs(rng, tier, stack_small=False):
                                       slots=slots, capacity=cap, stack=1.0, kill_at=kill,
                                       max_iters=20000, prims=prims))
                 # ---- P2: mock physics with continuous loss in three spheres (radii 1, 3, 6).
-                # The mock celeriton/anti-celeriton have has_at_rest = true but no model at
-                # E = 0 (fixture inconsistency: discrete-select then reads an invalid model
-                # id), so they are started where they cannot be stopped by the range:
-                # outer shell or world, flying outwards with enough energy to leave.
+                # The mock celeriton/anti-celeriton are outside the fixture's valid domain as
+                # soon as they interact or stop (has_at_rest = true but no model at E = 0, and
+                # process "meows" has a cross section but no model above 10 MeV:
+                # select_discrete_interaction then reads an invalid model id).  They are kept
+                # only for the antiparticle bookkeeping (escape / tracking cut with 2mc^2):
+                # started in the near-vacuum world, flying outwards, 1.5..9.5 MeV.
                 nev = rng.choice([1, 2])
                 prims = []
                 nprim = rng.choice([3, 5, 8]) if slots < 64 else 16
@@ -158,10 +160,10 @@ def gen_specs(rng, tier, stack_small=False):
                     pid = rng.choice([0, 1, 1, 2, 2, 3, 3, 4])
                     u = unit(rng)
                     if pid in (1, 2):
-                        rad = rng.choice([rng.uniform(3.2, 5.8), rng.uniform(6.5, 50.0)])
+                        rad = rng.uniform(6.5, 50.0)
                         pos = [rad * x for x in u]
                         d = list(u)
-                        E = rng.uniform(25.0, 95.0)
+                        E = rng.uniform(1.5, 9.5)
                     else:
                         rad = rng.choice([0.5, 2.0, 4.0, 8.0]) * rng.uniform(0.2, 0.95)
                         pos = [rad * x for x in u]
@@ -169,6 +171,10 @@ def gen_specs(rng, tier, stack_small=False):
                         lo, hi = {0: (-3, 1.9), 3: (-3, 0.9), 4: (-2, 2)}[pid]
                         E = 10 ** rng.uniform(lo, hi)
                     prims.append((pid, E, pos, d, i % nev))
+                if rng.random() < 0.6:
+                    # an antiparticle that starts outside the world: errored at initialisation,
+                    # the tracking cut must deposit E + 2mc^2
+                    prims.append((2, rng.uniform(1.5, 9.5), [1001.0, 0.0, 0.0], [1.0, 0.0, 0.0], 0))
                 cap = max(len(prims), 2) if tight else 4096
                 kill = rng.choice([-1, 1, 2, 3, 6])
                 specs.append(dict(problem="P2", cutmode=0, ecut=1000.0, seed=rng.randrange(1, 10 ** 6),
